@@ -56,6 +56,8 @@ Variables (s : store) (src : list (name * loc)) (length : Z) (keep : option (lis
           (conv : list (dtype * dtype)) (exc : list name) (copy : bool) (base : nat).
 Hypothesis Hsrc : forall n l, In (n, l) src -> exists b, rd s l = Some b.
 Hypothesis Hnd : NoDup (vals src).
+Hypothesis Hndk : NoDup (keys src).
+Definition keepb (k : name) : bool := match keep with Some kp => mem k kp | None => true end.
 Hypothesis Hlen : 0 <= length.
 Hypothesis Hbase : (base <= List.length s)%nat.
 Hypothesis Hshare : copy = false -> forall l, In l (vals src) -> (base <= l)%nat.
@@ -69,7 +71,8 @@ Definition CJ (todo : list (name * loc)) (st : cstate) : Prop :=
     /\ (len = None -> fs = [])
     /\ (forall n0, len = Some n0 -> 0 <= n0 /\ forall k l, In (k, l) fs -> exists b, rd s1 l = Some b /\ blen b = n0)
     /\ (forall k l', In (k, l') fs -> col_from s src length conv exc s1 k l')
-    /\ (forall k, In k (keys fs) -> In k (keys src) /\ match keep with Some kp => mem k kp = true | None => True end).
+    /\ (forall k, In k (keys fs) -> In k (keys src) /\ match keep with Some kp => mem k kp = true | None => True end)
+    /\ (exists done, src = done ++ todo /\ keys fs = filter keepb (keys done)).
 
 Definition CF (st : cstate) (x : outcome) : Prop :=
   let '(s1, fs, len) := st in exists ext, s1 = s ++ ext.
@@ -83,14 +86,24 @@ Qed.
 Lemma ctor_step : forall a r st0, CJ (a :: r) st0 ->
   match ctor_one length keep conv exc copy a st0 with (st', Done) => CJ r st' | (st', x) => CF st' x end.
 Proof.
-  intros [fname l] r [[s1 fs] len] (ext & A1 & A2 & A3 & A4 & A5 & A6 & A7 & A8 & A9); subst s1.
+  intros [fname l] r [[s1 fs] len] (ext & A1 & A2 & A3 & A4 & A5 & A6 & A7 & A8 & A9 & (done & D1 & D2)); subst s1.
+  assert (Dn : src = (done ++ [(fname, l)]) ++ r) by (rewrite <- app_assoc; exact D1).
+  assert (Kd : keys (done ++ [(fname, l)]) = keys done ++ [fname]) by (unfold keys; rewrite map_app; reflexivity).
   cbn [vals map snd] in A3. fold (vals r) in A3.
   destruct (NoDup_app_remove_mid _ _ _ _ A3) as (N1 & N2 & N3).
   assert (A5' : forall n l0, In (n, l0) r -> In (n, l0) src) by (intros; apply A5; right; assumption).
   assert (Hin : In (fname, l) src) by (apply A5; left; reflexivity).
   unfold ctor_one.
   destruct (match keep with Some k => negb (mem fname k) | None => false end) eqn:KP.
-  { exists ext; splits; auto. }
+  { exists ext; splits; auto. exists (done ++ [(fname, l)]); split; [exact Dn|].
+    rewrite Kd, filter_app; cbn [filter]. unfold keepb at 2. destruct keep as [kp|]; [|discriminate].
+    apply negb_true_iff in KP; rewrite KP, app_nil_r; assumption. }
+  assert (Kb : keepb fname = true).
+  { unfold keepb; destruct keep as [kp|]; [apply negb_false_iff in KP; assumption | reflexivity]. }
+  assert (Hfresh_name : ~ In fname (keys fs)).
+  { rewrite D2. intros Q; apply filter_In in Q; destruct Q as [Q _].
+    rewrite D1 in Hndk. unfold keys in Hndk; rewrite map_app in Hndk; cbn in Hndk.
+    apply NoDup_remove_2 in Hndk. apply Hndk; apply in_or_app; left; exact Q. }
   destruct (rd_src_ext ext fname l Hin) as [b [Hb0 Hb]]. rewrite Hb.
   assert (Hl_lt : (l < List.length (s ++ ext))%nat) by (eapply rd_lt; eassumption).
   remember (if mem fname exc then None else assoc (bdt b) conv) as cv eqn:CVdef.
@@ -133,7 +146,10 @@ Proof.
         + destruct (A8 k l0 Hi) as (l1 & b1 & b1' & Q1 & Q2 & Q3 & Q4 & Q5).
           exists l1, b1, b1'; splits; auto.
       - intros k Hk; apply keys_dset_incl in Hk; destruct Hk as [->|Hk]; [|apply A9; assumption].
-        split; [apply (in_map fst) in Hin; exact Hin | assumption]. }
+        split; [apply (in_map fst) in Hin; exact Hin | assumption].
+      - exists (done ++ [(fname, l)]); split; [exact Dn|].
+        rewrite dset_notin by assumption. rewrite Kd, filter_app; cbn [filter]. rewrite Kb.
+        unfold keys at 1; rewrite map_app; cbn. fold (keys fs). rewrite D2; reflexivity. }
     destruct len as [n|].
     - destruct (ctor_len_bad n flen) eqn:LB; [exists (ext ++ e2); subst s2; rewrite app_assoc; reflexivity|].
       apply K_ctor_len_bad in LB. apply Common; [discriminate|].
@@ -188,7 +204,7 @@ Lemma ctor_spec :
         /\ (forall l, In l (obj_locs o') -> (base <= l)%nat)
         /\ (forall k l', In (k, l') (fields o') -> col_from s src length conv exc s' k l')
         /\ (forall k, In k (keys (fields o')) -> In k (keys src) /\ match keep with Some kp => mem k kp = true | None => True end)
-        /\ oidx o' = None
+        /\ oidx o' = None /\ keys (fields o') = filter keepb (keys src)
   | (s', None, x) => x <> Done /\ exists ext, s' = s ++ ext
   end.
 Proof.
@@ -196,10 +212,12 @@ Proof.
   pose proof (cloop_ind (ctor_one length keep conv exc copy) CJ CF src (s, [], None)) as L.
   assert (J0 : CJ src (s, [], None)).
   { exists []; rewrite app_nil_r; splits; auto; try (intros; discriminate); try (cbn; intros; contradiction).
-    constructor. }
+    - constructor.
+    - exists []; split; reflexivity. }
   specialize (L J0 ctor_step).
   destruct (cloop (ctor_one length keep conv exc copy) src (s, [], None)) as [[[s' fs] len] x]; destruct x.
-  - destruct L as (ext & A1 & A2 & A3 & A4 & A5 & A6 & A7 & A8 & A9).
+  - destruct L as (ext & A1 & A2 & A3 & A4 & A5 & A6 & A7 & A8 & A9 & (done & D1 & D2)).
+    rewrite app_nil_r in D1; subst done.
     cbn [vals map] in A3; rewrite app_nil_r in A3.
     split; [reflexivity|]. exists ext.
     set (n := match len with Some n => n | None => ctor_empty_len end).
